@@ -200,6 +200,7 @@ def truncations_sym(line):
 
 NUMBER = re.compile(r'(?<![\w.])-?\d+(?:\.\d+)?(?:[eE][-+]?\d+)?(?![\w.])')
 WORDS = ("x", "abc", "one", "n/a", "0x", "1O")
+FLOAT_WORDS = ("inf", "nan", "-inf", "Infinity", "NaN")     # words float() converts: refused as attribute values since the repair of round 10
 
 
 def numeric_fields(st):
@@ -280,7 +281,8 @@ def twins_dbc(rng, lines, pos, taken):
         if kind is None or not later:
             continue
         a, b = fields[fi]
-        bad = st[:a] + rng.choice(WORDS) + st[b:]
+        # (for a default also the words Python's float() takes for a number: they are no numbers of the format)
+        bad = st[:a] + rng.choice(WORDS + FLOAT_WORDS if st.startswith("BA_DEF_DEF_ ") else WORDS) + st[b:]
         if bad.strip() in taken or any(bad.strip() == b2.strip() for _, b2, _ in found):
             continue
         found.append([later[0] if rng.random() < 0.5 else rng.choice(later), bad, kind])
@@ -608,7 +610,7 @@ def _gen_base(rng, tier, shard, nshards):
                             goods.append((g, later))
                 if goods:
                     g, later = rng.choice(goods)
-                    b = 'BA_ "%s" %s abc;' % (g.group(1), g.group(2))
+                    b = 'BA_ "%s" %s %s;' % (g.group(1), g.group(2), rng.choice(("abc", "abc") + FLOAT_WORDS))
                     if not any(b2 == b for _, b2, _ in bads):
                         bads.append([rng.choice(later), b, "wrongvalue"])
             if fmt == "dbc" and m and ms and rng.random() < 0.3:
